@@ -3,10 +3,12 @@ package main
 import (
 	"bytes"
 	"context"
+	"encoding/json"
 	"errors"
 	"fmt"
 	"io"
 	"net/http"
+	"reflect"
 	"strings"
 	"sync"
 	"time"
@@ -24,6 +26,32 @@ type orgEntry struct {
 	policy string
 	fail   string // "", "404", "500", "transport"
 	alt    string // when set: a page that is no JSON document, with a Link rel="alternate" type="application/ld+json" to this URL
+	// optional presentation of the response (zero values = the response as it always was)
+	ctype    string // Content-Type ("" = application/ld+json for a document, text/html for a page)
+	ctx      string // when set: the response also carries a Link rel="http://www.w3.org/ns/json-ld#context" to this URL
+	ctxFirst bool   // a page's context link stands before its alternate link
+	altRef   string // how the alternate's target is written in the header ("" = e.alt; a relative reference otherwise)
+}
+
+// the Link header value of an entry ("" = none)
+func (e *orgEntry) linkHeader() string {
+	var links []string
+	if e.alt != "" {
+		ref := e.alt
+		if e.altRef != "" {
+			ref = e.altRef
+		}
+		links = append(links, fmt.Sprintf(`<%s>; rel="alternate"; type="application/ld+json"`, ref))
+	}
+	if e.ctx != "" {
+		c := fmt.Sprintf(`<%s>; rel="http://www.w3.org/ns/json-ld#context"`, e.ctx)
+		if e.ctxFirst {
+			links = append([]string{c}, links...)
+		} else {
+			links = append(links, c)
+		}
+	}
+	return strings.Join(links, ", ")
 }
 
 type scriptedOrigin struct {
@@ -86,7 +114,10 @@ func (o *scriptedOrigin) RoundTrip(req *http.Request) (*http.Response, error) {
 	if ok && e.alt != "" && e.fail == "" {
 		h := policyHeaders(e.policy, time.Now())
 		h.Set("Content-Type", "text/html")
-		h.Set("Link", fmt.Sprintf(`<%s>; rel="alternate"; type="application/ld+json"`, e.alt))
+		if e.ctype != "" {
+			h.Set("Content-Type", e.ctype)
+		}
+		h.Set("Link", e.linkHeader())
 		return &http.Response{StatusCode: 200, Body: io.NopCloser(strings.NewReader("<html><body>see the alternate</body></html>")), Header: h, Request: req}, nil
 	}
 	if !ok || e.fail == "404" {
@@ -107,7 +138,14 @@ func (o *scriptedOrigin) RoundTrip(req *http.Request) (*http.Response, error) {
 		return &http.Response{StatusCode: 200, Body: io.NopCloser(strings.NewReader(body)), Header: policyHeaders("max-age=3600", time.Now()), Request: req}, nil
 	}
 	body := fmt.Sprintf(`{"@context": {"x": "urn:x"}, "v": %d}`, e.ver)
-	return &http.Response{StatusCode: 200, Body: io.NopCloser(bytes.NewReader([]byte(body))), Header: policyHeaders(e.policy, time.Now()), Request: req}, nil
+	h := policyHeaders(e.policy, time.Now())
+	if e.ctype != "" {
+		h.Set("Content-Type", e.ctype)
+	}
+	if l := e.linkHeader(); l != "" {
+		h.Set("Link", l)
+	}
+	return &http.Response{StatusCode: 200, Body: io.NopCloser(bytes.NewReader([]byte(body))), Header: h, Request: req}, nil
 }
 
 type fakeIPFS struct{ o *scriptedOrigin }
@@ -671,6 +709,327 @@ func emitAltRouting(out *Out, r *Rng) {
 		Tags: []string{"alternate-routing", "target:" + strings.SplitN(t, ":", 2)[0]}, NT: true})
 }
 
+// emitAltContextHistory: what a load returns for a URL is the whole remote document - body, document URL and the optional
+// context link (RemoteDocument.ContextURL, which json-gold applies as an extra context) - of a response the origin gave FOR THAT
+// URL (now, or earlier and still reusable), or the document embedded under it. Histories mix documents served with and without
+// a context link of their own, pages that are no JSON documents and announce an alternate (written absolute or relative) with
+// or without a context link of the page, embedded documents, new versions, failures and passing time; pages are loaded
+// between loads of the documents they point to. Judged (direct predicate, no model): every successful load of a document URL,
+// and the engine's embedded documents at the end of the history. Loads of pages are executed and book-kept but not judged
+// here (their version is judged by emitLoaderHistory; whose context link a page's result should carry the property does not say).
+func emitAltContextHistory(out *Out, r *Rng) {
+	mode := r.Pick([]string{"memory", "virtual", "virtual", "virtual", "none"})
+	base := r.Pick([]string{"https://schema.example/ctx/", "http://ctx.example/", "https://ctx.example/a/b/", "https://w3id.example/"})
+	nd := 2 + r.Intn(3)
+	docs := make([]string, nd)
+	for i := range docs {
+		docs[i] = fmt.Sprintf("%sdoc%d.jsonld", base, i)
+	}
+	np := 1 + r.Intn(3)
+	pages := make([]string, np)
+	sameBase := make([]bool, np)
+	for i := range pages {
+		if r.Chance(60) {
+			pages[i], sameBase[i] = fmt.Sprintf("%spage%d", base, i), true
+		} else {
+			pages[i] = fmt.Sprintf("https://pages.example/p%d.html", i)
+		}
+	}
+	ctxPool := []string{base + "page-context.jsonld", "https://w3id.example/ctx/v1", "http://ctx.example/shared.jsonld", "https://ns.example/c?x=1", base + "c2"}
+	docTypes := []string{"application/ld+json", "application/ld+json", "application/ld+json", "application/json", "application/activity+json", "text/plain"}
+	pageTypes := []string{"text/html", "text/html; charset=utf-8", "application/xhtml+xml", "text/plain", "application/octet-stream"}
+
+	embedded := map[string]int{}
+	var memOpts []loaders.MemoryCacheEngineOption
+	if mode != "none" && r.Chance(45) {
+		for k := 0; k < 1+r.Intn(2); k++ {
+			u := docs[r.Intn(nd)]
+			if _, ok := embedded[u]; !ok {
+				embedded[u] = 1000 + r.Intn(9)
+				memOpts = append(memOpts, loaders.WithEmbeddedDocumentBytes(u, []byte(fmt.Sprintf(`{"v": %d}`, embedded[u]))))
+			}
+		}
+	}
+	o := &scriptedOrigin{docs: map[string]*orgEntry{}, budget: 300}
+	lopts := []loaders.DocumentLoaderOption{loaders.WithHTTPClient(&http.Client{Transport: o})}
+	inner, err := loaders.NewMemoryCacheEngine(memOpts...)
+	if err != nil {
+		out.Emit(Case{Op: "none", In: J{"alt-context": "engine"}, Impl: J{}, Prop: propOf([]string{"NewMemoryCacheEngine: " + err.Error()}), Tags: []string{"alt-context"}, NT: true})
+		return
+	}
+	var ve *virtualEngine
+	switch mode {
+	case "none":
+		lopts = append(lopts, loaders.WithCacheEngine(nil))
+	case "virtual":
+		ve = &virtualEngine{inner: inner}
+		lopts = append(lopts, loaders.WithCacheEngine(ve))
+	default:
+		lopts = append(lopts, loaders.WithCacheEngine(inner))
+	}
+	loader := loaders.NewDocumentLoader(nil, "", lopts...)
+
+	copyDoc := func(d *ld.RemoteDocument) ld.RemoteDocument {
+		c := ld.RemoteDocument{DocumentURL: d.DocumentURL, ContextURL: d.ContextURL}
+		if b, err := json.Marshal(d.Document); err == nil {
+			_ = json.Unmarshal(b, &c.Document)
+		}
+		return c
+	}
+	showDoc := func(d ld.RemoteDocument) string {
+		b, _ := json.Marshal(d.Document)
+		return fmt.Sprintf("{DocumentURL %q, ContextURL %q, Document %s}", d.DocumentURL, d.ContextURL, trunc(string(b), 60))
+	}
+	// the embedded documents as they are at construction, before anything was loaded
+	embSnap := map[string]ld.RemoteDocument{}
+	var why []string
+	for u := range embedded {
+		d, _, err := inner.Get(u)
+		if err != nil || d == nil {
+			why = append(why, fmt.Sprintf("the engine does not have the document embedded under %s: %v", u, err))
+			continue
+		}
+		embSnap[u] = copyDoc(d)
+	}
+
+	var ops []any
+	var impl []any
+	now := 0
+	type recv struct {
+		u    string
+		v    int
+		ctx  string // the context link of that response ("" = none)
+		t, l int
+	}
+	var received []recv
+	isPage := func(u string) bool {
+		for _, p := range pages {
+			if p == u {
+				return true
+			}
+		}
+		return false
+	}
+	serveDoc := func(u string) {
+		e := &orgEntry{ver: 1, ctype: docTypes[r.Intn(len(docTypes))]}
+		o.mu.Lock()
+		if old := o.docs[u]; old != nil {
+			e.ver = old.ver + 1
+		}
+		o.mu.Unlock()
+		e.policy = c19Policies[r.Intn(len(c19Policies))]
+		if r.Chance(55) {
+			e.policy = r.Pick([]string{"max-age=3600", "max-age=60", "max-age=3", "expires+3600"})
+		}
+		if r.Chance(30) {
+			e.ctx = ctxPool[r.Intn(len(ctxPool))]
+		}
+		st, lt := policyOracle(e.policy)
+		o.mu.Lock()
+		o.docs[u] = e
+		o.mu.Unlock()
+		ops = append(ops, J{"o": "serve", "u": u, "v": e.ver, "policy": e.policy, "storable": st, "lifetime": lt, "contentType": e.ctype, "contextLink": e.ctx})
+	}
+	servePage := func(i int) {
+		e := &orgEntry{ctype: pageTypes[r.Intn(len(pageTypes))]}
+		e.alt = docs[r.Intn(nd)]
+		if r.Chance(12) {
+			e.alt = pages[r.Intn(np)] // a page naming a page (or itself)
+		}
+		if sameBase[i] && r.Chance(60) {
+			e.altRef = e.alt[len(base):]
+			if r.Chance(30) {
+				e.altRef = "./" + e.altRef
+			}
+		}
+		e.policy = r.Pick([]string{"no-store", "none", "max-age=3600", "max-age=3", "private", "max-age=60"})
+		if r.Chance(65) {
+			e.ctx = ctxPool[r.Intn(len(ctxPool))]
+			e.ctxFirst = r.Bool()
+		}
+		st, lt := policyOracle(e.policy)
+		o.mu.Lock()
+		o.docs[pages[i]] = e
+		o.mu.Unlock()
+		ops = append(ops, J{"o": "servePage", "u": pages[i], "target": e.alt, "policy": e.policy, "storable": st, "lifetime": lt, "contentType": e.ctype, "link": e.linkHeader()})
+	}
+	wantBody := func(v int) any { return map[string]any{"@context": map[string]any{"x": "urn:x"}, "v": float64(v)} }
+	nJudged, nAfterPage := 0, 0
+	pageLoaded := false
+	load := func(u string) {
+		o.mu.Lock()
+		before := o.reqs
+		logFrom := len(o.log)
+		o.spent = 0
+		o.mu.Unlock()
+		doc, err := guard(5*time.Second, func() (*ld.RemoteDocument, error) {
+			d, e := loader.LoadDocument(u)
+			if e == nil && d == nil {
+				return nil, errNilNil
+			}
+			return d, e
+		})
+		o.mu.Lock()
+		nreq := o.reqs - before
+		requested := append([]string{}, o.log[logFrom:]...)
+		snapshot := map[string]orgEntry{}
+		for k, e := range o.docs {
+			snapshot[k] = *e
+		}
+		o.mu.Unlock()
+		if c := errClass(err); c == "panic" || c == "hang" {
+			why = append(why, "load "+u+": "+err.Error())
+		}
+		if errors.Is(err, errNilNil) {
+			why = append(why, "load "+u+": nil document without an error")
+		}
+		if err != nil {
+			ops = append(ops, J{"o": "load", "u": u})
+			impl = append(impl, J{"err": "err", "req": nreq})
+			if ev, ok := embedded[u]; ok {
+				why = append(why, fmt.Sprintf("the document embedded under %s (version %d) is not returned: %v (%d request(s) made)", u, ev, err, nreq))
+			}
+		} else {
+			got := copyDoc(doc)
+			ops = append(ops, J{"o": "load", "u": u})
+			impl = append(impl, J{"ok": docVersion(doc), "req": nreq, "documentURL": got.DocumentURL, "contextURL": got.ContextURL})
+			switch {
+			case isPage(u):
+				pageLoaded = true
+			case len(embSnap) > 0 && func() bool { _, ok := embSnap[u]; return ok }():
+				// embedded at construction: returned as it was embedded, without any request
+				nJudged++
+				if pageLoaded {
+					nAfterPage++
+				}
+				if nreq != 0 {
+					why = append(why, fmt.Sprintf("%d request(s) were made for the embedded document %s", nreq, u))
+				}
+				if snap := embSnap[u]; !reflect.DeepEqual(snap, got) {
+					why = append(why, fmt.Sprintf("load %s: the embedded document was overwritten: embedded %s, returned %s", u, showDoc(snap), showDoc(got)))
+				}
+			default:
+				// a response the origin gave for u: the current one, or an earlier one that allowed caching and is still fresh
+				nJudged++
+				if pageLoaded {
+					nAfterPage++
+				}
+				type cand struct {
+					v        int
+					ctx, why string
+				}
+				var allowed []cand
+				if e, ok := snapshot[u]; ok && e.fail == "" && e.alt == "" {
+					allowed = append(allowed, cand{e.ver, e.ctx, "current"})
+				}
+				for _, rc := range received {
+					if rc.u == u && rc.t+rc.l > now {
+						allowed = append(allowed, cand{rc.v, rc.ctx, "cached-fresh"})
+					}
+				}
+				v := docVersion(doc)
+				okv, okc := false, false
+				for _, a := range allowed {
+					if a.v == v {
+						okv = true
+						// the context link is an optional member: the loader may ignore it (it does for application/ld+json), it may not invent one
+						if got.ContextURL == "" || got.ContextURL == a.ctx {
+							okc = true
+						}
+					}
+				}
+				switch {
+				case !okv:
+					why = append(why, fmt.Sprintf("load %s returned version %d which is neither current nor a fresh storable response (allowed %v, now=%d)", u, v, allowed, now))
+				case !okc:
+					why = append(why, fmt.Sprintf("load %s returned version %d with context link %q: no response of the origin for this URL carried it (allowed {version, contextLink, why}: %v, now=%d)", u, v, got.ContextURL, allowed, now))
+				}
+				if okv && !reflect.DeepEqual(got.Document, wantBody(v)) {
+					why = append(why, fmt.Sprintf("load %s returned a document the origin never served: %s", u, showDoc(got)))
+				}
+				if got.DocumentURL != u {
+					why = append(why, fmt.Sprintf("load %s returned a document of another URL: %s", u, showDoc(got)))
+				}
+			}
+		}
+		// bookkeeping: every document URL requested on the way (directly, or as the target of a page) received its current response
+		if mode != "none" {
+			for _, w := range requested {
+				if e, ok := snapshot[w]; ok && e.fail == "" && e.alt == "" {
+					if st, lt := policyOracle(e.policy); st {
+						received = append(received, recv{w, e.ver, e.ctx, now, lt})
+					}
+				}
+			}
+		}
+		if nreq > 40 {
+			why = append(why, fmt.Sprintf("load %s made %d requests: alternate links are followed without bound", u, nreq))
+		}
+	}
+
+	for _, u := range docs {
+		if r.Chance(90) {
+			serveDoc(u)
+		}
+	}
+	for i := range pages {
+		servePage(i)
+	}
+	nops := 6 + r.Intn(10)
+	for k := 0; k < nops; k++ {
+		x := r.Intn(100)
+		switch {
+		case x < 13:
+			serveDoc(docs[r.Intn(nd)])
+		case x < 20:
+			servePage(r.Intn(np))
+		case x < 25:
+			u := docs[r.Intn(nd)]
+			o.mu.Lock()
+			ne := &orgEntry{fail: []string{"404", "500", "transport", "garbage", "empty-body"}[r.Intn(5)]}
+			if old := o.docs[u]; old != nil {
+				ne.ver = old.ver
+			}
+			o.docs[u] = ne
+			o.mu.Unlock()
+			ops = append(ops, J{"o": "fail", "u": u, "how": ne.fail})
+		case x < 36 && ve != nil:
+			n := []int{1, 2, 5, 7, 30, 100}[r.Intn(6)]
+			ve.tick(n)
+			now += n
+			ops = append(ops, J{"o": "tick", "n": n})
+		case x < 66:
+			load(pages[r.Intn(np)])
+		default:
+			load(docs[r.Intn(nd)])
+		}
+	}
+	if r.Chance(75) {
+		for _, i := range r.Perm(nd) {
+			load(docs[i])
+		}
+	}
+	// the engine itself: its embedded documents are what they were at construction
+	for u, snap := range embSnap {
+		d, _, err := inner.Get(u)
+		if err != nil || d == nil {
+			why = append(why, fmt.Sprintf("at the end of the history the engine no longer has the document embedded under %s: %v", u, err))
+		} else if cur := copyDoc(d); !reflect.DeepEqual(snap, cur) {
+			why = append(why, fmt.Sprintf("at the end of the history the engine's embedded document %s is %s, embedded was %s", u, showDoc(cur), showDoc(snap)))
+		}
+	}
+	emb := J{}
+	for u, v := range embedded {
+		emb[u] = v
+	}
+	if impl == nil {
+		impl = []any{}
+	}
+	out.Emit(Case{Op: "none", In: J{"alt-context": J{"cache": mode, "embedded": emb}, "ops": ops}, Impl: J{"loads": impl}, Prop: propOf(why),
+		Tags: []string{"alt-context", "alt-context:cache:" + mode, fmt.Sprintf("alt-context:embedded:%v", len(embedded) > 0), fmt.Sprintf("alt-context:doc-load-after-page-load:%v", nAfterPage > 0)},
+		NT:   nAfterPage > 0})
+}
+
 func genC19(out *Out, r *Rng, tier string, n int, shard int) {
 	if shard == 0 {
 		emitMerklizeIPFSOptions(out, r)
@@ -680,6 +1039,10 @@ func genC19(out *Out, r *Rng, tier string, n int, shard int) {
 		if i%4 == 0 {
 			emitAltRouting(out, r)
 		}
+	}
+	// after the histories above, so that their stream of random choices stays what it was
+	for i := 0; i < n/3+1; i++ {
+		emitAltContextHistory(out, r)
 	}
 	if tier == "thorough" && shard < 4 {
 		emitRealTimeHistory(out, r)
